@@ -9,6 +9,7 @@ import ErgoProofs.Lemmas.ReachInv
 import ErgoProofs.Lemmas.Ready
 import ErgoProofs.Lemmas.StorageThm
 import ErgoProofs.Lemmas.PlanShape
+import ErgoProofs.Lemmas.PropsAux
 namespace Ergo
 
 /-- claim order, prune set and compaction output do not depend on map iteration order (any permutation of the item and
@@ -46,6 +47,11 @@ theorem C12_append_extends {classify : Storage.Bytes → Storage.LineClass} {enc
     (hr : Storage.readEvents classify limit f = .ok es) (hs : Storage.Short encode limit evs) :
     Storage.readEvents classify limit (Storage.appendFile classify encode f evs) = .ok (es ++ evs) :=
   (Storage.appendFile_reads hc f es evs hr hs).1
+
+/-- … (event level: every command except compact leaves the old log as a prefix of the new one) -/
+theorem C12_history_grows (log : List Event) (env : Env) (req : Request) (hreq : ∀ a, sectionOf a req ≠ .ok .compact) :
+    ∃ more, (runCmd log env req).log = log ++ more :=
+  runCmd_extends log env req hreq
 
 /-- read-only commands have no lock section at all in the model: they cannot write (T1/T3 check the same of the code) -/
 theorem C12_failed_or_readonly_writes_nothing (log : List Event) (env : Env) (req : Request)
